@@ -283,7 +283,9 @@ def run(chk):
         table = {i: (("R", v.n) if isinstance(v, qc.UserErr) else ("V", qc.dump(v))) for i, v in objs.items()}
         cases.append(("corpus", text, hy.read(text), table, objs))
     n = 30000 if thorough else 2500
+    gen_errors = []
     for _ in range(n):
+      try:
         tg = TemplateGen(rng, g, vg)
         t = g.tree(rng.choice([1, 2, 2, 3, 3, 4]), tg.leaf)
         if not tg.table and rng.random() < 0.8:
@@ -293,6 +295,10 @@ def run(chk):
                 [t, M.Expression([M.Symbol("unquote"), tg.arg(False)]),
                  M.Expression([M.Symbol("unquote-splice"), tg.arg(True)])])
         cases.append(("generated", None, t, tg.table, tg.objs))
+      except Exception as e:  # noqa  -- a constructor of the code under test refused a generated input: note it, go on
+        gen_errors.append("%s: %s" % (type(e).__name__, str(e)[:100]))
+    chk.obligation("the generator built its templates without a hy.models constructor raising", not gen_errors,
+                   "%d times, e.g. %s" % (len(gen_errors), "; ".join(gen_errors[:3])))
     chk.rule = ("templates: random model trees (all classes/attributes as in C30) with unquote / unquote-splice forms "
                 "(also spelled unquote_splice and with a full-width letter) placed at random depths in every sequence kind "
                 "incl. FString/FComponent, nested quasiquotes up to 3 levels with singly (literal) and doubly (active) "
